@@ -172,6 +172,7 @@ type Node struct {
 	Parent *Node
 	Via    Step
 	Seed   string
+	key    string // state key (kept when the snapshot itself is dropped)
 	// SeedSteps (root nodes only): the trace from the empty directory that produced this state
 	SeedSteps []Step
 }
@@ -238,6 +239,10 @@ type Spec struct {
 	CheckState func(c *Ctx, n *Node) []Violation
 	Env        []string
 	MaxStates  int
+	// KeepStates keeps the disk snapshot of every reached state after the exploration (needed when the
+	// nodes are used as a corpus afterwards). By default a snapshot is dropped as soon as its state has been
+	// judged and expanded: what stays is the key, the parent link and the step (enough for traces).
+	KeepStates bool
 }
 
 // Ctx is handed to oracles: a private sandbox for probes, the binary, counters.
@@ -421,6 +426,7 @@ func (x *Explorer) Run() {
 		}
 		var next []*Node
 		var aborted int32
+		lastLevel := depth+1 >= x.Spec.Depth
 		x.parallel(len(jobs), func(c *Ctx, i int) {
 			if time.Now().After(x.Deadline) {
 				atomic.StoreInt32(&aborted, 1)
@@ -492,26 +498,40 @@ func (x *Explorer) Run() {
 				return
 			}
 			x.mu.Lock()
+			var fresh *Node
 			if _, dup := x.seen[k]; !dup && (x.Spec.MaxStates == 0 || len(x.seen) < x.Spec.MaxStates) {
-				nn := &Node{State: post, Depth: depth + 1, Parent: j.n, Via: j.st, Seed: j.n.Seed}
+				nn := &Node{State: post, Depth: depth + 1, Parent: j.n, Via: j.st, Seed: j.n.Seed, key: k}
 				x.seen[k] = nn
 				next = append(next, nn)
+				fresh = nn
 			}
 			x.mu.Unlock()
+			if fresh != nil && lastLevel && !x.Spec.KeepStates {
+				// the deepest level is the largest: judge each of its states at once and let go of the snapshot
+				if x.Spec.CheckState != nil {
+					x.addViolations(x.Spec.CheckState(c, fresh), fresh, nil)
+				}
+				fresh.State, fresh.abs = nil, nil
+			}
 		})
 		if aborted != 0 {
 			x.Exhaustive = false
 			break
 		}
 		// deterministic order
-		sort.Slice(next, func(a, b int) bool { return next[a].State.Key() < next[b].State.Key() })
+		sort.Slice(next, func(a, b int) bool { return next[a].key < next[b].key })
 		x.States += len(next)
 		x.AllNodes = append(x.AllNodes, next...)
-		if !x.checkStates(next) {
+		if !(lastLevel && !x.Spec.KeepStates) && !x.checkStates(next) {
 			x.Exhaustive = false
 			break
 		}
 		x.Completed = depth + 1
+		if !x.Spec.KeepStates {
+			for _, n := range frontier {
+				n.State, n.abs = nil, nil // expanded: only key, parent and step are needed from here on
+			}
+		}
 		frontier = next
 	}
 }
